@@ -6,7 +6,7 @@ use kv_engine::forkdfs::{self, Opts};
 use kv_engine::{Ctx, Level};
 use serde_json::json;
 
-fn cfg_for(id: &str, quick: bool) -> (Cfg, u8) {
+pub fn cfg_for(id: &str, quick: bool) -> (Cfg, u8) {
     let props = [match id {
         "C03" => "C03",
         "C22" => "C22",
